@@ -67,7 +67,7 @@ func realThresholds(n uint64) (f, q uint64, ok bool) {
 
 func thresholdInputs(r *lib.RNG, count int) []uint64 {
 	var ns []uint64
-	for i := uint64(0); i <= 64; i++ {
+	for i := uint64(0); i <= 1024; i++ {
 		ns = append(ns, i)
 	}
 	for k := 6; k < 64; k++ {
@@ -95,9 +95,9 @@ func runThresholds(f lib.Flags, res *lib.Result, r *lib.RNG, drv *lib.Driver, on
 	if ns == nil {
 		ns = thresholdInputs(r, f.Scale(300, 5000))
 	}
-	lines := make([]string, 0, 2*len(ns))
+	lines := make([]string, 0, len(ns))
 	for _, n := range ns {
-		lines = append(lines, "fq "+strconv.FormatUint(n, 10), "fqfixed "+strconv.FormatUint(n, 10))
+		lines = append(lines, "fq "+strconv.FormatUint(n, 10))
 	}
 	outs, err := drv.AskAll(lines)
 	if err != nil {
@@ -110,18 +110,14 @@ func runThresholds(f lib.Flags, res *lib.Result, r *lib.RNG, drv *lib.Driver, on
 		if !ok {
 			impl = "unmeasurable"
 		}
-		model, fixed := outs[2*i], outs[2*i+1]
+		model := outs[i]
 		res.Compared(1)
 		key := "thresholds/" + strconv.FormatUint(n, 10)
 		res.Case(key, n > 0)
-		switch {
-		case impl == model:
+		if impl == model {
 			res.Hit("thresholds=code-formula")
-		case impl == fixed && n >= 1<<63:
-			// the overflow-free formula (proposed fix) is in place
-			res.Hit("thresholds=overflow-free-formula")
-		default:
-			res.Mismatch(lib.Mismatch{Sig: "thresholds", Input: n, Model: model + " (fixed: " + fixed + ")", Impl: impl})
+		} else {
+			res.Mismatch(lib.Mismatch{Sig: "thresholds", Input: n, Model: model, Impl: impl})
 		}
 		if n == 0 || !ok {
 			continue
@@ -134,6 +130,8 @@ func runThresholds(f lib.Flags, res *lib.Result, r *lib.RNG, drv *lib.Driver, on
 		attain := Q.Cmp(N) <= 0
 		third := new(big.Int).Mul(F, big.NewInt(3)).Cmp(N) < 0
 		if !(inter && attain && third) {
+			// (the signature of the defect repaired by 487454a is kept apart so that its return is
+			// recognisable: the product 2N wrapped for N >= 2^63)
 			sig := "quorum-thresholds-do-not-intersect"
 			if n >= 1<<63 {
 				sig = "quorum-threshold-wraps-for-total-power-ge-2^63"
